@@ -332,12 +332,11 @@ class Phase:
                 return None
             for with_mids in (False, True):
                 pha = extrema_interpolated_phase(sig, p, t, r if with_mids else None, d if with_mids else None)
-                if not with_mids:
-                    from .jobs_armed import armed_call
-                    m = armed_call('bycycle.cyclepoints.phase.extrema_interpolated_phase', extrema_interpolated_phase,
-                                   dict(sig=sig, peaks=p, troughs=t, rises=None, decays=None))
-                    if m:
-                        return 'armed contract: ' + m
+                from .jobs_armed import armed_call
+                m = armed_call('bycycle.cyclepoints.phase.extrema_interpolated_phase', extrema_interpolated_phase,
+                               dict(sig=sig, peaks=p, troughs=t, rises=r if with_mids else None, decays=d if with_mids else None))
+                if m:
+                    return 'armed contract: ' + m
                 seq = sorted([(x, 'P') for x in p] + [(x, 'T') for x in t])
                 ex, kinds = [x for x, _ in seq], [k for _, k in seq]
                 mids = None
@@ -361,11 +360,11 @@ class Phase:
             pha = extrema_interpolated_phase(np.zeros(n), peaks, troughs, rises, decays)
         except Exception as e:
             return 'raised %r' % (e,)
-        if mids is None and len(peaks) and len(troughs):
+        if len(peaks) and len(troughs):
             # the contract text the deductive side proves, evaluated on this real call (armed contract)
             from .jobs_armed import armed_call
             m = armed_call('bycycle.cyclepoints.phase.extrema_interpolated_phase', extrema_interpolated_phase,
-                           dict(sig=np.zeros(n), peaks=peaks, troughs=troughs, rises=None, decays=None))
+                           dict(sig=np.zeros(n), peaks=peaks, troughs=troughs, rises=rises, decays=decays))
             if m:
                 return 'armed contract: ' + m
         return check_phase(n, ex, kinds, mids, pha)
